@@ -33,6 +33,7 @@ def scope(run, pid, extra=()):
 
 def c_dev10n(run):
     r10_args.check_none_default_tests(run, run.prog.analysed_functions())
+    r10_args.check_none_belief(run, [f for f in run.prog.analysed_functions() if f.module.short not in ('base/animate', 'timing', 'stdlib/collections', 'base/graphics')])
     r20_shapes.check_inverted_guards(run, run.prog.analysed_functions())
     r20_shapes.check_slot_completeness(run, run.prog.analysed_functions())
     for f in run.prog.analysed_functions():
@@ -128,6 +129,8 @@ def c07(run):
     # caller data never reaches a construction that skips the check: a transporter (r2t, rt2tr, trinv ...) applied to a raw
     # parameter is a member only if the parameter is, so it needs a dominating membership test with the check enabled
     r15_closed.check_unchecked_sites(run, raw_only=True)
+    # a constructor argument that may be left out (None) is used as a value only where it was found to be given
+    r10_args.check_none_belief(run, [f for f in prog.analysed_functions() if f.name == '__init__' and f.module.short not in ('stdlib/collections',)])
     # dual-mode transl / transl2 behind the validating import: reached only with a vector argument
     if r20_shapes.check_dual_mode_calls(run, [f for f in prog.analysed_functions() if f.cls is not None]) < 3:
         run.error('R20: fewer than 3 one-argument transl / transl2 calls in class methods (anchor of the dual-mode rule not found in the current source)')
@@ -356,6 +359,7 @@ def c15(run):
     r10_args.check_recursion_options(run, prog.analysed_functions())
     r10_args.check_broadcast_stores(run, prog.analysed_functions())
     r10_args.check_none_default_tests(run, prog.analysed_functions())
+    r10_args.check_none_belief(run, [f for f in prog.analysed_functions() if f.module.short not in ('base/animate', 'timing', 'stdlib/collections', 'base/graphics')])
     # the arms of a form split (one vector / a list of vectors, one value / many) forward the same options to the same kernel
     for f in prog.analysed_functions():
         if f.module.short not in ('base/animate', 'timing', 'stdlib/collections', 'base/graphics'):
@@ -493,6 +497,7 @@ def _scope_rules(run, pid, r1=True, r2=True, r9=True, generic=True):
                 r10_args.check_unit_typestate(run, f)
         r10_args.check_recursion_options(run, [f for f in fs if f.key not in seen])
         r10_args.check_none_default_tests(run, [f for f in fs if f.key not in seen])
+        r10_args.check_none_belief(run, [f for f in fs if f.key not in seen])
         for f in fs:
             if f.key not in seen:
                 r7_binary.check_duplicates(run, f)           # x - x, x == x, atan2(a, a), a paired loop variable that is never used
@@ -604,6 +609,7 @@ def c02(run):
 
 def c03(run):
     r21_explog.check_exp_dispatch(run)
+    r16_tables.tables_plumbing(run)         # rt2tr / Ab2M / r2t / t2r / tr2rt: the slots every other table takes for granted
     r21_explog.check_log_general(run)
     r21_explog.check_twist_pairs(run)
     r21_explog.check_ginv(run)
@@ -804,6 +810,7 @@ def c13(run):
 def c14(run):
     r16_tables.tables_c14(run)
     r16_tables._frame(run, 'base/transforms3d:trnorm', o='P0[:3, 1]', a='P0[:3, 2]', ret_plain=False)
+    r16_tables._frame2(run)
     r15_closed.check_unitquaternion_ctor(run)
     _scope_rules(run, 'C14')
     run.floor('R16', 25)
